@@ -30,27 +30,27 @@ Print Assumptions C03_npm_order.
    a span s, and for every release candidate u, u in s (under either matching mode) iff u
    satisfies node's desugaring of (op M.m.p). *)
 Theorem C03_op_ge_sound : forall pv str M m p, fin M -> fin m -> fin p ->
-  npm_sound str M m p (op_version_to_span pv go_tokGreaterEqual (mk3 str M m p)) OpGe.
+  npm_sound M m p (op_version_to_span pv go_tokGreaterEqual (mk3 str M m p)) OpGe.
 Proof. exact op_ge_sound. Qed.
 Print Assumptions C03_op_ge_sound.
 
 Theorem C03_op_lt_sound : forall pv str M m p, fin M -> fin m -> fin p -> (M <> 0 \/ m <> 0 \/ p <> 0) ->
-  npm_sound str M m p (op_version_to_span pv go_tokLess (mk3 str M m p)) OpLt.
+  npm_sound M m p (op_version_to_span pv go_tokLess (mk3 str M m p)) OpLt.
 Proof. exact op_lt_sound. Qed.
 Print Assumptions C03_op_lt_sound.
 
 Theorem C03_op_caret_sound : forall pv str M m p, fin M -> fin m -> fin p -> 0 < M ->
-  npm_sound str M m p (op_version_to_span pv go_tokCaret (mk3 str M m p)) OpCaret.
+  npm_sound M m p (op_version_to_span pv go_tokCaret (mk3 str M m p)) OpCaret.
 Proof. exact op_caret_sound. Qed.
 Print Assumptions C03_op_caret_sound.
 
 Theorem C03_op_tilde_sound : forall pv str M m p, fin M -> fin m -> fin p ->
-  npm_sound str M m p (op_version_to_span pv go_tokTilde (mk3 str M m p)) OpTilde.
+  npm_sound M m p (op_version_to_span pv go_tokTilde (mk3 str M m p)) OpTilde.
 Proof. exact op_tilde_sound. Qed.
 Print Assumptions C03_op_tilde_sound.
 
 Theorem C03_op_eq_sound : forall pv str M m p, fin M -> fin m -> fin p ->
-  npm_sound str M m p (op_version_to_span pv go_tokEqual (mk3 str M m p)) OpEq.
+  npm_sound M m p (op_version_to_span pv go_tokEqual (mk3 str M m p)) OpEq.
 Proof. exact op_eq_sound. Qed.
 Print Assumptions C03_op_eq_sound.
 
